@@ -207,6 +207,18 @@ def run(ctx, scale=1.0):
             check_element(drv, el, core.dump_elem(el), out, stats, used=(i % 2 == 1))
             if i % 4 == 0:
                 check_property(drv, rng, dg, out, stats)
+        # numeric keywords holding floats that have no exact binary form, and integers beyond 2**53, at the top and nested
+        for x in (0.1, 0.01, 1.1, 0.5, 2.5, 1e-7, 3.0, 2 ** 60 + 1, -0.0):
+            for cls in ("Number", "Integer", "Element"):
+                for kwname in ("multipleOf", "minimum", "exclusiveMaximum", "default", "const"):
+                    leaf = {"cls": cls, "kw": {kwname: core.enc_val(x)}}
+                    for dump in (leaf, {"cls": "Array", "kw": {"itemsKind": "single"}, "items": [leaf]},
+                                 {"cls": "Element", "kw": {"hasProps": True}, "props": [[{"name": "n", "source": "n"}, leaf]]}):
+                        try:
+                            el = dsl.build(dump)
+                        except Exception:  # noqa: BLE001
+                            continue
+                        check_element(drv, el, core.dump_elem(el), out, stats, what="numeric-literal")
         # one element per class with each single keyword at a falsy non-default value
         for dump in (
             {"cls": "Element", "kw": {"default": None}}, {"cls": "Element", "kw": {"default": False}}, {"cls": "Element", "kw": {"const": {"i": "0"}}},
